@@ -206,6 +206,15 @@ GOLDCB == [Bp("GOLDCB", C2,
                !.flows = << Flow(3, 11, "GIFT", FALSE, TRUE), Flow(11, 3, "GIFT", FALSE, TRUE) >>,
                !.exo = << Exo(1, "DEM_GOOD"), Exo(10, "DEM_GOOD"), Exo(9, "r") >>]
 
-AllBlueprints == {REG2, GOLDCB, TWOBUS, TWOGIFTS, SIMBOND, IMPORTRES, NOEXT3, SIMX, SIMR, SIMEXR, JOIN2, JOIN2X, GOLD2, GOLDNOEXT, SIM, SIMEX, SIMCAP, SIMMARGIN, SIMMON, SIMDEP, PC, MULTI, FED, GIFT, GIFT2, IMPORT, NOEXT1, NOEXT2, NOSUP, TWOSUP}
+\* ---- three currencies, gifts around the ring A -> B -> C -> A ----------------------------------------------------
+C3cur == << [code |-> "A", cur |-> "AD"], [code |-> "B", cur |-> "BD"], [code |-> "K", cur |-> "KD"] >>
+Econ(cc) == << Sd(cc, "GOV", "ConsolidatedGovernment"), [Sd(cc, "HH", "Household") EXCEPT !.gift = TRUE],
+               Sd(cc, "BUS", "FixedMarginBusiness"), Sd(cc, "TF", "TaxFlow"), Sd(cc, "LAB", "Market"), Sd(cc, "GOOD", "Market") >>
+RING3 == [Bp("RING3", C3cur, Econ("A") \o Econ("B") \o Econ("K"), {9})
+          EXCEPT !.freeq = {9}, !.external = "last",
+                 !.flows = << Flow(2, 8, "GIFT", FALSE, TRUE), Flow(8, 14, "GIFT", FALSE, TRUE), Flow(14, 2, "GIFT", TRUE, TRUE) >>,
+                 !.exo = << Exo(1, "DEM_GOOD"), Exo(7, "DEM_GOOD"), Exo(13, "DEM_GOOD") >>]
+
+AllBlueprints == {RING3, REG2, GOLDCB, TWOBUS, TWOGIFTS, SIMBOND, IMPORTRES, NOEXT3, SIMX, SIMR, SIMEXR, JOIN2, JOIN2X, GOLD2, GOLDNOEXT, SIM, SIMEX, SIMCAP, SIMMARGIN, SIMMON, SIMDEP, PC, MULTI, FED, GIFT, GIFT2, IMPORT, NOEXT1, NOEXT2, NOSUP, TWOSUP}
 QuickBlueprints == { [b EXCEPT !.free = b.freeq] : b \in AllBlueprints }
 =============================================================================
